@@ -114,6 +114,19 @@ class Lib:
                     st.spec = sp
             elif isinstance(op, (ast.BitAnd, ast.BitOr)) and xa.t == BOOL and xb.t == BOOL:
                 val = SV(BOOL, z3.And(xa.z, xb.z) if isinstance(op, ast.BitAnd) else z3.Or(xa.z, xb.z))
+            elif isinstance(op, ast.Div):
+                # numpy division never raises (inf/nan with a warning): the quotient is only constrained where
+                # the divisor is non-zero (sound over-approximation of the real-arithmetic model)
+                x, y = ex.to_real(xa), ex.to_real(xb)
+                ex.used_lib.add("numpy element-wise division: x / y where y != 0 (unconstrained elsewhere, no exception)")
+                t = TSeq(REAL, "nd")
+                ex.pop_binder(st)
+                r = ex.fresh("ewdiv", t)
+                ex.assume(st, t.len(r.z) == ln)
+                ex.assume(st, z3.ForAll([j], z3.Implies(z3.And(0 <= j, j < ln, y != 0), t.arr(r.z)[j] == x / y),
+                                        patterns=[t.arr(r.z)[j]]))
+                ex.push_binder(st, [j], z3.And(0 <= j, j < ln))
+                return r
             else:
                 val = ex.binop(st, op, xa, xb, node)
         finally:
@@ -925,7 +938,24 @@ def psum_fn(ex, st, a):
 def seq_sum(ex, st, a):
     f = psum_fn(ex, st, a)
     et = a.t.elem
-    return SV(INT if et in (INT, BOOL) else REAL, f(a.z, ex.seq_len(a)))
+    total = f(a.z, ex.seq_len(a))
+    if et == BOOL:
+        key = ("boolsum", a.z.get_id())
+        if key not in st.seen:
+            st.seen.add(key)
+            ex.used_lib.add("sum of a boolean array counts the True entries: >= 0, and 0 iff no entry is True "
+                            "(and equals the number of rows a mask selects)")
+            i = ex.bvar("i")
+            aa = a.t.arr(a.z)
+            n = ex.seq_len(a)
+            wit = ex.uf("true_at_" + a.t.key(), a.t.sort(), z3.IntSort())
+            ex.assume(st, total >= 0)
+            ex.assume(st, z3.Implies(total == 0, z3.ForAll([i], z3.Implies(z3.And(0 <= i, i < n), z3.Not(aa[i])),
+                                                           patterns=[aa[i]])))
+            ex.assume(st, z3.Implies(total != 0, z3.And(0 <= wit(a.z), wit(a.z) < n, aa[wit(a.z)])))
+            cnt = ex.uf("sel_cnt", a.t.sort(), z3.IntSort())
+            ex.assume(st, cnt(a.z) == total)
+    return SV(INT if et in (INT, BOOL) else REAL, total)
 
 
 def is_perm(ex, p, n):
